@@ -1,7 +1,9 @@
 package checks
 
 import (
+	"errors"
 	"fmt"
+	dsig "github.com/russellhaering/goxmldsig"
 	"net/http"
 	"net/http/httptest"
 	"net/url"
@@ -358,6 +360,89 @@ func runC18(c *core.Ctx) {
 		}
 	}
 
+	// a custom SignatureVerifier: what it refuses is refused, what it accepts (by running the default validation) is accepted
+	c.Group("custom-signature-verifier")
+	for _, vn := range []string{"rejecting", "delegating"} {
+		for _, sig := range []string{"valid", "untrusted-key", "edited-after/destination", "absent", "encryption-use-key", "signature-value-truncated"} {
+			for _, enc := range []string{"form", "redirect", "request-get", "request-post"} {
+				vn, sig, enc := vn, sig, enc
+				key := fmt.Sprintf("verifier=%s/all-fields-correct/sig=%s/%s", vn, sig, enc)
+				c.Case(key, func(t *core.T) {
+					t.NonTrivial()
+					sp := harness.NewSP(harness.SPOpt{Trust: "meta1"})
+					sp.SignatureVerifier = c18Verifier{reject: vn == "rejecting"}
+					saml.MaxIssueDelay, saml.MaxClockSkew = tols[0].delay, tols[0].skew
+					off, present := c18IIs[0].off(tols[0].delay, tols[0].skew)
+					doc := c18Build(c18Dests[0].v, c18Issuers[0].v, c18Statuses[0], off, present, sig, idp1())
+					err, pan := call(sp, enc, doc)
+					t.Impl(1)
+					t.Compared()
+					if pan != "" {
+						t.Fail("C18/"+enc+"/panic@"+pan[strings.LastIndex(pan, "@")+1:], "panicked: %s", pan)
+						return
+					}
+					v := core.MustReject
+					if vn == "delegating" && sig == "valid" {
+						v = core.MustAccept
+					}
+					t.Modelled(v)
+					t.Outcome(fmt.Sprint(err == nil))
+					if v == core.MustReject && err == nil {
+						t.Fail("C18/"+enc+"/reports-valid/custom-verifier-refused", "%s: the configured SignatureVerifier refuses this message, yet it is reported valid", key)
+						t.Input("logout_response", string(doc))
+					}
+					if v == core.MustAccept && err != nil {
+						t.Fail("C18/"+enc+"/rejects-valid/custom-verifier", "%s: %s", key, privErr(err))
+					}
+				})
+			}
+		}
+	}
+
+	// key rotation: ONE ServiceProvider whose IdP metadata is replaced between validations; validity follows the metadata in force
+	c.Group("trust-rotation")
+	rotKeys := []string{"idp1", "idp2"}
+	for n := 0; n < 8; n++ {
+		seq := []int{n & 1, (n >> 1) & 1, (n >> 2) & 1}
+		for _, how := range []string{"replace-metadata", "edit-descriptor-in-place"} {
+			for _, enc := range []string{"form", "redirect"} {
+				seq, how, enc := seq, how, enc
+				key := fmt.Sprintf("rotation/%v/%s/%s", seq, how, enc)
+				c.Case(key, func(t *core.T) {
+					t.NonTrivial()
+					sp := harness.NewSP(harness.SPOpt{Trust: "meta1"})
+					saml.MaxIssueDelay, saml.MaxClockSkew = tols[0].delay, tols[0].skew
+					off, present := c18IIs[0].off(tols[0].delay, tols[0].skew)
+					for step, ki := range seq {
+						md := harness.IDPMetadata("meta1", "", "")
+						md.IDPSSODescriptors[0].KeyDescriptors[0].KeyInfo.X509Data.X509Certificates[0].Data = samlgen.Key(rotKeys[ki]).CertB64
+						if how == "replace-metadata" {
+							sp.IDPMetadata = md
+						} else {
+							sp.IDPMetadata.IDPSSODescriptors[0].KeyDescriptors[0].KeyInfo.X509Data.X509Certificates[0].Data = samlgen.Key(rotKeys[ki]).CertB64
+						}
+						for si, signer := range rotKeys {
+							doc := c18Build(c18Dests[0].v, c18Issuers[0].v, c18Statuses[0], off, present, "valid", samlgen.Key(signer))
+							err, pan := call(sp, enc, doc)
+							t.Impl(1)
+							if pan != "" {
+								t.Fail("C18/"+enc+"/panic@"+pan[strings.LastIndex(pan, "@")+1:], "panicked: %s", pan)
+								return
+							}
+							if si == ki && err != nil {
+								t.Fail("C18/"+enc+"/rotation/rejects-currently-trusted-signer", "%s step %d: a response signed by %s, the key in the metadata in force, is refused: %s", key, step+1, signer, privErr(err))
+							}
+							if si != ki && err == nil {
+								t.Fail("C18/"+enc+"/rotation/accepts-signer-no-longer-trusted", "%s step %d: a response signed by %s is reported valid although the metadata in force lists only %s", key, step+1, signer, rotKeys[ki])
+							}
+						}
+					}
+					t.Compared()
+				})
+			}
+		}
+	}
+
 	// dispatch wrappers with a valid signature
 	c.Group("request-dispatch")
 	for _, d := range devs {
@@ -394,4 +479,15 @@ func c18Class(di, ii, si, iii int, sig string) string {
 		parts = parts[:2]
 	}
 	return strings.Join(parts, "+")
+}
+
+// c18Verifier is an application-supplied SignatureVerifier: it either refuses everything or runs the default validation.
+type c18Verifier struct{ reject bool }
+
+func (v c18Verifier) VerifySignature(ctx *dsig.ValidationContext, el *etree.Element) error {
+	if v.reject {
+		return errors.New("the application's verifier refuses this signature")
+	}
+	_, err := ctx.Validate(el)
+	return err
 }
